@@ -12,6 +12,9 @@ import itertools
 import os
 import z3
 from contracts.common import *  # noqa
+from contracts import structure
+from contracts.structure import *  # noqa
+from contracts.deferred_c import *  # noqa
 from contracts import common, insn, symbols_c, c06
 from contracts.insn import *  # noqa
 from contracts.symbols_c import sym_tables, mk_state, name_input, key, unit_extern  # noqa
@@ -534,6 +537,9 @@ def units(tier):
         us.append(("dispatch[%s]" % k, "unit_dispatch", dict(kind=k)))
     us.append(("bounded-grouping", "unit_bounded_grouping", {}))
     us.append(("bounded-terminators", "unit_bounded_terminators", {}))
+    # whole programs: the statement holds wherever a statement stands (repeat body, included / linked file, any block) - contracts/structure.py
+    us += structure.units()
+    us += structure.kernel_units()
     return us
 
 
@@ -549,6 +555,9 @@ def canary(eng):
 
 
 def replay(o, tree):
+    r_ = structure.replay(o, tree)
+    if r_ is not None:
+        return r_
     if (o.get("cfg") or {}).get("kind") == "dispatch":
         pairs = [("x = 5\nx\n", "x = 5\n.word x\n"), ("x = 5\nx, 1\n", "x = 5\n.word x, 1\n"), ("WORD 1, 2\n", ".word 1, 2\n"), ("MoV #1, R0\n", "mov #1, r0\n"),
                  ("x = 5\nX\n", "x = 5\n.word x\n"), ("lab: nop\nlab\n", "frob\n")]
